@@ -1077,6 +1077,15 @@ coap_oscore_decrypt_pdu(coap_session_t *session,
       rcp_ctx = association->recipient_ctx;
       osc_ctx = rcp_ctx->osc_ctx;
       snd_ctx = osc_ctx->sender_context;
+      if (cose->key_id.s != NULL &&
+          !coap_binary_equal(&cose->key_id, rcp_ctx->recipient_id)) {
+        /* A kid in a response has to be the one of the peer that was asked */
+        coap_log_warn("OSCORE: kid in response does not match Recipient ID\n");
+        coap_handle_event_lkd(session->context,
+                              COAP_EVENT_OSCORE_DECODE_ERROR,
+                              session);
+        goto error;
+      }
 #if COAP_CLIENT_SUPPORT
       sent_pdu = association->sent_pdu;
       if (session->b_2_step != COAP_OSCORE_B_2_NONE) {
